@@ -29,7 +29,9 @@ is judged on its own expiry definition (no deadline carried over from the
 previous instance); C08.5 the recorded (state, since) is restored on every
 path before presence is applied and the up/down sets are exact; C08.6 whatever
 un-places an instance clears its unschedule mark, and _check_pending_start
-keeps an entry only while the instance's server exists and is not down.
+keeps an entry only while the instance's server exists and is not down. Fourth
+round: C08.6 the (state, since) pair is stored by Node.set_state and
+constructors only.
 Does NOT decide timing ('in the first cycle after the timeout') over clock
 sequences.
 """
